@@ -37,6 +37,7 @@ namespace
         {
             Plan p;
             int nt = (int)r.range(2, 4);
+            bool longrun = r.chance(1, 40); // a long program: what only accumulates over many calls (counters, nodes left behind)
             int mode = r.chance(1, 4) ? 1 : 0;
             int memk = (int)r.pick<int64_t>({0, 0, 1, 2, 5, 11});
             // cfg[3]: safe_queue built from an initializer list of (cfg[3]-1) items
@@ -49,7 +50,7 @@ namespace
             {
                 int style = (int)r.below(3); // 0 uniform, 1 sticky, 2 very sticky
                 unsigned spurious_pm = (unsigned)r.pick<int64_t>({0, 0, 20, 80});
-                int n = tier == THOROUGH ? 900 : 500;
+                int n = longrun ? 5000 : (tier == THOROUGH ? 900 : 500);
                 for (int i = 0; i < n; i++)
                 {
                     int64_t c;
@@ -68,7 +69,7 @@ namespace
             }
             p.ops.push_back(s);
             // per-thread actions
-            int per = (int)r.range(1, tier == THOROUGH ? 8 : 5);
+            int per = longrun ? (int)r.range(20, 40) : (int)r.range(1, tier == THOROUGH ? 8 : 5);
             if (prog == P_LOCK)
             {
                 for (int t = 0; t < nt; t++)
